@@ -1,2 +1,18 @@
-(* P_C11.v — property C11: theorems only (in progress). *)
-From RS Require Import Base Network Tour SchedObs.
+(* P_C11.v — property C11: theorems only. Each dumped candidate of RSSchedParallelNeighborhood::neighbors_of is
+   passed through [check_inv] and [check_exact]; these theorems say what passing means. The universal claim
+   over all reachable schedules is not proved (no functional model of the swaps); candidates are compositions of
+   the public modifications whose tour-level, formation-level and cycle-level steps are proved (C12, C13, C15). *)
+From RS Require Import Base Network NetSpec Tour SchedObs InvStmts InvFacts.
+
+Theorem C11_candidate_tours_valid : forall nw o, stmt_inv_tours nw o.
+Proof. exact inv_tours. Qed.
+Print Assumptions C11_candidate_tours_valid.
+Theorem C11_candidate_limits : forall nw o, stmt_inv_limits nw o.
+Proof. exact inv_limits. Qed.
+Print Assumptions C11_candidate_limits.
+Theorem C11_candidate_cycles : forall nw o, stmt_inv_cycles nw o.
+Proof. exact inv_cycles. Qed.
+Print Assumptions C11_candidate_cycles.
+Theorem C11_candidate_objective_truthful : forall nw o, stmt_exact_meaning nw o.
+Proof. exact exact_meaning. Qed.
+Print Assumptions C11_candidate_objective_truthful.
